@@ -26,14 +26,13 @@ CLAIMS = {
              'LUT selection by kind prefix and connected pins, zero slot for unconnected pins), executed gate by gate in any value domain, '
              'yields a valuation satisfying every node\'s equation, and solutions are unique. END TO END for the default options '
              '(C01_end_to_end_default): build() always succeeds, and the flat memory it lays out, after running the ops it schedules, '
-             'holds at every observed slot the value of the driving line in that unique solution. For c_reuse/strip_forks the flat-memory '
-             'execution equals the line-level one for every map passing the ownership certificate (C08_map_check_sound); the certificate, the executable twin of '
+             'holds at every observed slot the value of the driving line in that unique solution. For c_reuse/strip_forks the same holds by C06_options_irrelevant_spec / C08_build_passes_certificate_all (all four option combinations); the certificate, the executable twin of '
              'the main theorem and the models of SimOps/LogicSim (ops, levels, c_locs, s[0], s[1] after k cycles) are evaluated / compared '
              'on every generated circuit, plus an independent evaluator.',
         design_ref='5/C01',
         note='Modelled not verified: SimOps.__init__, LogicSim.s_to_c/c_prop/c_to_s/s_ppo_to_ppi/cycle, Circuit.topological_order (hand '
-             'transcriptions tied by exact correspondence). Not theorems: that build() always yields a map passing the certificate; the '
-             'k-cycle iteration (correspondence + oracle). Reading: a variadic gate\'s arity is its highest connected pin.'),
+             'transcriptions tied by exact correspondence). The k-cycle iteration is a line-level theorem (C01_cycles_are_iter_sem: the scheduler-based iteration IS the k-fold application of the unique gate-by-gate solution, state elements without data line read 0) compared with LogicSim.cycle on every generated lane; '
+             'the memory-level cycle loop is tied by correspondence. Reading: a variadic gate\'s arity is its highest connected pin.'),
     'C02': dict(
         technique='Coq proofs: exhaustive sweeps of the re-traced 4/8-valued dispatch + logical-relations lemma over op lists; correspondence',
         text='Proof (full at op-list level). The 4- and 8-valued dispatch of c_prop (with and without callback) is re-traced from the '
@@ -85,38 +84,46 @@ CLAIMS = {
         design_ref='5/C05',
         note='As C02 and C03 (line-level semantics; memory map by certificate and correspondence).'),
     'C06': dict(
-        technique='Coq proofs for the code-path / lane / release-order clauses + differential execution over all option pairs with option-parametric models',
-        text='Proof (partial). Proved: the mock-GPU launch runs every in-bounds kernel instance exactly once (so the GPU path applies the same per-element functions as the CPU loops), lane independence of the bit-parallel kernels, irrelevance of the order in which released memory is freed. Not a theorem: c_reuse / strip_forks / dataset invariance -- the Coq models of SimOps/LogicSim/WaveSim take c_reuse and strip_forks as '
-             'parameters and are tied to the code for every setting (C01-C05, C08); invariance itself is decided by running the '
-             'implementation against itself: c_reuse x strip_forks (zero delay on fork inputs), WaveSim vs WaveSimCuda, more lanes, lane '
-             'permutations, c_prop(sims=j), delay-dataset modes 0/1.',
+        technique='Coq proofs: memory-level invariance of the observed slots under c_reuse and strip_forks for all netlists (every option combination delivers the unstripped line-level value), launcher covers every instance once (model tied to the real MockCuda), lane independence, release-order irrelevance, multi-cycle strip invariance; differential execution over all option pairs',
+        text='Proof (logic level full; timing level partial). PROVED for every well-formed, combinationally acyclic netlist of known primitives, every stimulus, any value domain: '
+             'whatever c_reuse and strip_forks are, the flat memory after the scheduled ops holds at the PPO slot of every observed port / state element the value that the '
+             'UNSTRIPPED line-level execution gives the line feeding it (C06_options_irrelevant_spec), so any two option combinations agree at every observed slot '
+             '(C06_options_irrelevant, C06_c_reuse_irrelevant, C06_end_to_end_reuse; ops, levels, aliases and interface do not depend on c_reuse: C06_c_reuse_same_interface); '
+             'the stripped schedule equals the unstripped one at every line (C06_strip_forks_irrelevant) also over k clock cycles (C06_cycles_strip_irrelevant); the '
+             'mock-GPU launch runs every in-bounds kernel instance exactly once (C06_gpu_threads_cover; Model/Launch.v is compared with the real launcher\'s thread sequence '
+             'and cdiv on generated grid/block shapes); lane independence of the bit-parallel kernels for any batch size; irrelevance of the order in which released memory is freed. '
+             'NOT theorems (decided by running the implementation against itself on every generated configuration): strip_forks for TIMING simulation (false in general: '
+             'known finding D26), CPU vs GPU kernels (WaveSim vs WaveSimCuda incl. 33..65 lanes over two cycles with s_ppo_to_ppi), more lanes, lane permutations, '
+             'c_prop(sims=j), delay-dataset modes 0/1.',
         design_ref='5/C06',
-        note='No theorem yet states c_reuse/strip_forks invariance; dataset mode 2 (random picking) and sd>0 capture are outside the claim.'),
+        note='Modelled not verified: SimOps.__init__ (correspondence for every option setting). Dataset mode 2 (random picking) and sd>0 capture are outside the claim; the GPU kernels are compared with the CPU loops differentially, their bodies are not modelled separately.'),
     'C07': dict(
-        technique='Coq proofs: greedy levelisation yields an independent partition for every SSA-topological op list; any order inside levels gives the same signals; certificate evaluation; permuted-schedule execution',
-        text='Proof (partial). Proved over the transcription of the scheduler: for EVERY op list in single-assignment topological form the '
-             'greedy levelisation yields levels in which no op reads or overwrites an output of its own level (scratch slot excepted); for '
-             'every such partition, ANY permutation inside the levels gives the same value of every signal except scratch; the mock GPU '
-             'launch runs every in-range thread exactly once. Together with the C08 theorems (released memory is never handed out before '
-             'the end of the level: frees happen after the level\'s allocations in the transcription, and map_check_sound) this covers '
-             'the statement at op granularity. Tied to the code by SimOps correspondence, by evaluating the certificates on every '
-             'generated circuit, and by executing LogicSim/WaveSim/WaveSimCuda with permuted op rows / thread orders.',
+        technique='Coq proofs: the scheduler\'s op list is in single-assignment topological form for every well-formed acyclic netlist with and without fork stripping; greedy levelisation yields an independent partition; any order inside levels gives the same signals; launcher model tied to the real MockCuda; permuted-schedule execution',
+        text='Proof (full at op granularity). For EVERY well-formed, combinationally acyclic netlist, with AND without fork stripping, the op list SimOps builds is in '
+             'single-assignment topological form over the stem aliases (C07_build_ops_ssa, C07_build_ops_ssa_strip; stems are characterised as the heads of fork chains and '
+             'build_stems is total), hence the published level partition passes the schedule check (C07_build_levels_valid[_strip], and C07_build_sched_cert for every '
+             'result of build() under any option and capacity setting): no op reads or overwrites an output of its own level (scratch slot excepted); for every such '
+             'partition ANY permutation inside the levels gives the same value of every signal except scratch; the launcher runs every in-range (simulation, operation) '
+             'instance exactly once, and Model/Launch.v is compared with the thread sequence of the real MockCuda launcher on generated grid/block shapes. Memory released in a '
+             'level is not handed out within that level: the release loop runs after the level\'s allocations (transcription) and the memory map is proved safe for all '
+             'option combinations (C08_build_passes_certificate_all). Tied to the code by SimOps correspondence, per-circuit certificates, and by executing '
+             'LogicSim/WaveSim/WaveSimCuda with permuted op rows / thread orders.',
         design_ref='5/C07',
-        note='C07_build_ops_ssa proves the SSA-topological form for every well-formed netlist without fork stripping; with strip_forks it is certificate-checked per circuit. Interleavings below kernel-instance granularity are not modelled.'),
+        note='Modelled not verified: SimOps.__init__ (correspondence). Interleavings below kernel-instance granularity are not modelled (the mock launcher cannot exhibit them).'),
     'C08': dict(
-        technique='Coq proof of allocator invariants over all alloc/free histories (refinement to a block list); step-by-step correspondence; overlap oracle for the map',
-        text='Proof (allocator full, map partial). For ALL histories of well-formed use the Gallina transcription of sim.Heap keeps its '
+        technique='Coq proofs: allocator invariants over all alloc/free histories (refinement to a block list); SimOps.build passes a proved-sound ownership certificate for ALL netlists and all four c_reuse x strip_forks combinations (invariant over the alloc/release events: reference count = pins + reads to come); step-by-step correspondence; overlap oracle',
+        text='Proof (full for the modelled allocator and map). ALLOCATOR: for ALL histories of well-formed use the Gallina transcription of sim.Heap keeps its '
              'regions tiling the managed range with free regions coalesced, never returns a region overlapping a live one, keeps live '
-             'regions unchanged, reports the true high-water mark, and frees commute (so Python\'s set iteration order is irrelevant). '
-             'The transcription is compared with sim.Heap after EVERY step of random histories (full tables). The SimOps map (live ranges, '
-             'aliasing, total size) is modelled (Model/SimOps.v uses the Heap model) and tied by correspondence; a checkable ownership '
-             'certificate is proved sound (a map that passes it makes flat-memory execution equal line-level execution at every observed '
-             'slot) and evaluated on the model\'s result for every generated circuit; an independent liveness checker runs on the '
-             'implementation\'s tables. For the default options (c_reuse off) build() is PROVED to pass the certificate on every well-formed '
-             'netlist of known primitives (C08_build_passes_certificate; the side condition is proved necessary); with c_reuse on it is '
-             'evaluated per case.',
+             'regions unchanged, reports the true high-water mark, and frees commute (so Python\'s set iteration order is irrelevant); compared with sim.Heap '
+             'after EVERY step of random histories (full tables). MAP: the ownership certificate is proved sound (a map that passes it makes flat-memory '
+             'execution equal line-level execution at every observed slot), and SimOps.build is PROVED to produce a map passing it for EVERY well-formed, '
+             'combinationally acyclic netlist of known primitives, every capacity vector, c_caps_min > 0 and ALL FOUR combinations of c_reuse and strip_forks '
+             '(C08_build_passes_certificate, _reuse, _all; with stripping: stripped forks have their input connected); build() is total under the same '
+             'hypotheses; the side conditions are proved necessary / checkable (C08_certificate_needs_reads_defined, C08_option_hypotheses_checkable, evaluated on every '
+             'generated circuit) and a concrete netlist on which three signals share one location is exhibited (C08_reuse_nonvacuous). The certificate is still '
+             'evaluated per generated case and an independent liveness/overlap checker runs on the implementation\'s tables.',
         design_ref='5/C08',
-        note='Modelled not verified: sim.Heap and SimOps.__init__ are hand transcriptions.'),
+        note='Modelled not verified: sim.Heap and SimOps.__init__ are hand transcriptions tied by exact correspondence (tables after every step; ops, levels, c_locs, c_caps, c_len for all option settings).'),
     'C13': dict(
         technique='Coq proofs: returned activity counts = edges of the stored waveform; overflow-mark rule and its closure over op lists; accumulated switching activity = weighted edge sums for any op list; capture summary at circuit level and on the flat memory; whole-memory and line-level correspondence; recount oracle with generator-owned a_ctrl',
         text='Proof (full at op-list level; flat memory under a per-case region certificate). PER GATE for all inputs: (nrise, nfall) equal the rising/falling transitions of the '
@@ -133,15 +140,19 @@ CLAIMS = {
         design_ref='5/C13',
         note='As C03; capture with sd>0 is outside the claim; flat-memory statements need the region certificate (c_reuse off, no fork stripping).'),
     'C17': dict(
-        technique='Coq proof of Kahn-traversal theorems for all well-formed netlists over a Gallina transcription; exact-sequence correspondence; graph oracle',
-        text='Proof (traversals full, name lookup partial). For ALL well-formed netlists (pins may be unconnected, cut at state elements) the '
+        technique='Coq proof of Kahn-traversal and fan-in theorems for all well-formed netlists over a Gallina transcription; exact-sequence correspondence; graph oracle',
+        text='Proof (traversals and fan-in full, name lookup partial). For ALL well-formed netlists (pins may be unconnected, cut at state elements) the '
              'transcription of topological_order yields every node at most once, sources first, every combinational driver before its '
              'reader, and -- if the combinational part is acyclic -- every node exactly once; levels are the longest combinational '
              'distance; line order covers every line once; reverse iteration is literally the forward traversal of the reversed graph '
-             '(so all facts mirror). The transcriptions are compared with the code as exact sequences on random graphs and origin sets. '
-             'fanin (sandwich statement) and the prefix lookup _locs are decided by oracles with ground truth, not by theorems.',
+             '(so all facts mirror). FAN-IN: fanin(origins) is the restriction of the reversed order to the yielded nodes, yields each node at most once, only nodes '
+             'with a path to an origin (C17_fanin_sound), every node with a combinational path to an origin (C17_fanin_complete_comb), exactly the transitive fan-in in '
+             'combinational circuits (C17_fanin_exact_comb), and is characterised exactly at state elements (C17_fanin_unfold/_comb_node/_seq_node: a flip-flop is yielded '
+             'only through readers that are origins or earlier-indexed yielded state elements). The transcriptions are compared with the code as exact sequences on random '
+             'graphs and origin sets, the hypotheses are discharged per circuit by proved-sound checkers. Prefix lookup: integer keys are listed in numeric order; '
+             '_locs is otherwise decided by correspondence and a ground-truth oracle.',
         design_ref='5/C17',
-        note='Modelled not verified: the five traversal generators (Model/Netlist.v). Not modelled: the regular expression and nested sort of _locs.'),
+        note='Modelled not verified: the five traversal generators (Model/Netlist.v). Not modelled: the regular expression of _locs.'),
     'C19': dict(
         technique='Coq proof by exhaustive evaluation of all cells regenerated from techlib.py against a datasheet-family specification; exhaustive correspondence with TechLib.cells',
         text='Proof (full). All five library strings are re-extracted from techlib.py on every run and parsed into Gen/TechLibs.v; Coq proves '
